@@ -183,14 +183,25 @@ func rulePsyncWire(w *core.World, r *core.Report) {
 // by its name).
 func allocReceiving(f *ssa.Function, is func(core.Site) bool, idx int) *ssa.Alloc {
 	var found *ssa.Alloc
-	for _, in := range core.Instrs(f) {
+	// f itself (with the helpers read as part of it) and its closures: a local of f that a closure assigns
+	// is the same variable (the closure's captured variable is bound to it)
+	instrs := core.Instrs(f)
+	for _, g := range core.DeepFuncs(f)[1:] {
+		instrs = append(instrs, core.OwnInstrs(g)...)
+	}
+	for _, in := range instrs {
 		st, ok := in.(*ssa.Store)
 		if !ok {
 			continue
 		}
 		a, ok := st.Addr.(*ssa.Alloc)
 		if !ok {
-			continue
+			if fv, isFV := st.Addr.(*ssa.FreeVar); isFV {
+				a = core.Cell(fv)
+			}
+			if a == nil || a.Parent() != f {
+				continue
+			}
 		}
 		e, ok := core.Unwrap(st.Val).(*ssa.Extract)
 		if !ok || e.Index != idx {
@@ -299,13 +310,16 @@ func ruleSyncMetaPaths(w *core.World, r *core.Report) {
 		}
 		// ---- which start point was offered to the source
 		src := ""
+		var copied ssa.Instruction // the read that copied the start point for a helper that sends the PSYNC
 		if c, ok := core.Unwrap(p.Resolve(ps.Args()[1])).(*ssa.Call); ok && strings.HasSuffix(core.ResolveCall(c).Name, "StartPoint).ToOffset") {
-			switch c.Call.Args[0] {
-			case ssa.Value(loc):
+			point, cp := startPointHandedOver(p, c.Call.Args[0], ps.Instr, loc, out, syn)
+			copied = cp
+			switch point {
+			case loc:
 				src = "cache"
-			case ssa.Value(out):
+			case out:
 				src = "target"
-			case ssa.Value(syn):
+			case syn:
 				src = "initial"
 			}
 		}
@@ -339,8 +353,14 @@ func ruleSyncMetaPaths(w *core.World, r *core.Report) {
 		case "initial":
 			init := false
 			for _, s := range sites {
-				if strings.HasSuffix(s.Name, "StartPoint).Initialize") && s.Common().Args[0] == ssa.Value(syn) && core.Dominates(s.Instr, ps.Instr) {
-					init = true
+				if strings.HasSuffix(s.Name, "StartPoint).Initialize") && s.Common().Args[0] == ssa.Value(syn) {
+					if s.Instr.Parent() == ps.Instr.Parent() && core.Dominates(s.Instr, ps.Instr) {
+						init = true
+					}
+					// the PSYNC is sent by a helper that was handed a copy: the copy was taken after the initialisation
+					if copied != nil && precedesOnPath(p, s.Instr, copied) {
+						init = true
+					}
 				}
 			}
 			if !init {
@@ -445,22 +465,23 @@ func ruleSyncMetaPaths(w *core.World, r *core.Report) {
 			if !ok {
 				continue
 			}
+			// (an assignment made by a closure of syncMeta the path stepped into is an assignment of the same variable)
 			switch a := st.Addr.(type) {
-			case *ssa.Alloc:
-				if a == loc {
+			case *ssa.Alloc, *ssa.FreeVar:
+				if core.Cell(a) == loc {
 					last["loc"] = st.Val
 					delete(last, "loc.Offset")
 				}
-				if a == out {
+				if core.Cell(a) == out {
 					last["out"] = st.Val
 					delete(last, "out.Offset")
 				}
 			case *ssa.FieldAddr:
 				if core.FieldName(a) == "Offset" {
-					if a.X == ssa.Value(loc) {
+					if core.Cell(a.X) == loc {
 						last["loc.Offset"] = st.Val
 					}
-					if a.X == ssa.Value(out) {
+					if core.Cell(a.X) == out {
 						last["out.Offset"] = st.Val
 					}
 				}
